@@ -4,6 +4,7 @@ Only property statements live here; every proof is a reference to a lemma of Lem
 statement cannot be weakened quietly to make a proof pass.
 -/
 import Verif.C08.Lemmas
+import Verif.Generated.TablesC08
 import Verif.C08.DateLemmas
 import Verif.C08.SpellingLemmas
 
@@ -244,5 +245,31 @@ example : render ⟨.ymd, .absent, .name true false true, .four, .absent⟩ ⟨1
 example : parseDate (render ⟨.dmy, .plain, .plain, .two, .absent⟩ ⟨2093, 1, 1, 0, 0, 0⟩) = .ok ⟨1993, 1, 1, 0, 0, 0⟩ := by decide
 example : SpellingFits ⟨.dmy, .plain, .plain, .two, .absent⟩ ⟨2093, 1, 1, 0, 0, 0⟩ = false := by decide
 example : SpellingFits ⟨.ymd, .plain, .plain, .two, .absent⟩ ⟨2000, 1, 1, 0, 0, 0⟩ = false := by decide
+
+end Verif.C08
+
+namespace Verif.C08
+open Verif.Tables
+
+/-! ## Pins: the constants of the anchored functions that the hand-written model mirrors
+
+`TablesC08.lean` is regenerated on every run from the code objects of `tsdb._parse_datetime`,
+`_date_fix`, `format`, `escape` and `unescape` (string and number constants; docstrings and message
+texts left out; the two `re.VERBOSE` patterns with their layout white space removed).  The model's
+`matchYMD`/`matchDMY`/`parseTime`/`dateFix`/`strptimeFixed`/`formatDate`/`escape`/`unescape` are
+hand-coded equivalents of exactly these patterns and constants, so a change to any of them must be
+followed in the model: this theorem stops checking, which the check reports as a broken proof
+obligation and then searches for a failing input. -/
+theorem c08_pins :
+    c08ParseDatetimeConsts =
+      [":?(today|now)",
+       "(?P<y>[0-9]{4})-(?P<m>[0-9]{1,2}|\\w{3})(?:-(?P<d>[0-9]{1,2}))?(?:\\s*\\(?(?P<H>[0-9]{2}):(?P<M>[0-9]{2})(?::(?P<S>[0-9]{2}))?\\)?)?",
+       "(?:(?P<d>[0-9]{1,2})-)?(?P<m>[0-9]{1,2}|\\w{3})-(?P<y>[0-9]{2}(?:[0-9]{2})?)(?:\\s*\\(?(?P<H>[0-9]{2}):(?P<M>[0-9]{2})(?::(?P<S>[0-9]{2}))?\\)?)?",
+       "%Y-%m-%d %H:%M:%S"]
+    ∧ c08DateFixConsts = ["y", "2", "93", "19", "20", "m", "3", "d", "01", "H", "00", "M", "S", "-", " ", ":"]
+    ∧ c08FormatConsts = [":integer", "-1", "", ":date", "-", "-%Y", " %H:%M:%S"]
+    ∧ c08EscapeConsts = ["\\", "\\\\", "\n", "\\n", "\\s"]
+    ∧ c08UnescapeConsts = ["\\", "s", "@", "n", "\n", ""] := by
+  refine ⟨?_, ?_, ?_, ?_, ?_⟩ <;> rfl
 
 end Verif.C08
